@@ -21,7 +21,7 @@ func prepareIRC(e *vc.Engine) ([]vc.Registration, error) {
 	if err := e.SynthesizeHandlerContracts(regs, "ircserver.handler"); err != nil {
 		return nil, err
 	}
-	e.DynCallHook = e.HandlerDynHook(regs, "ircserver.handler", "server_")
+	e.DynCallHook = e.HandlerDynHook(regs, "ircserver.handler", "ircserver.dispatch", "server_")
 	return regs, nil
 }
 
@@ -65,4 +65,37 @@ func gateLemma(e *vc.Engine, regs []vc.Registration) []StructResult {
 func PrepareIRCForUnit(e *vc.Engine) error {
 	_, err := prepareIRC(e)
 	return err
+}
+
+// gateLemmaUnits: for every registered handler, the dispatch in ProcessMessage
+// establishes its precondition.
+func gateLemmaUnits(e *vc.Engine, regs []vc.Registration) ([]*vc.Unit, error) {
+	minP := map[string]int64{}
+	fn := map[string]vc.Registration{}
+	regNames := map[string][]string{}
+	for _, r := range regs {
+		if r.Handler.Parent() != nil {
+			continue
+		}
+		n := vc.ShortName(r.Handler)
+		regNames[n] = append(regNames[n], r.Name)
+		if m, ok := minP[n]; !ok || r.MinParams < m {
+			minP[n] = r.MinParams
+		}
+		fn[n] = r
+	}
+	var names []string
+	for n := range minP {
+		names = append(names, n)
+	}
+	sort.Strings(names)
+	var us []*vc.Unit
+	for _, n := range names {
+		u, err := e.GateLemma(fn[n].Handler, minP[n], regNames[n], "ircserver.handler", "ircserver.dispatch", "server_")
+		if err != nil {
+			return nil, err
+		}
+		us = append(us, u)
+	}
+	return us, nil
 }
